@@ -165,7 +165,7 @@ def codec(ctx, examples, shard):
                     ctx.violation("key-update-packet-differs", "packet of the next key phase decoded differently (update flag %s)" % upd4, case)
             except Exception as e:
                 ctx.violation("key-update-packet-not-accepted", "decrypt_packet raised %r on a packet protected with the next key generation (%s v%x)" % (e, rs, version), case)
-        if ctx.evaluations % 700 == 0:
+        if ctx.want_sample():
             ctx.sample({k2: case[k2] for k2 in ("suite", "version", "generation", "pn_len", "pn", "header", "payload_len")})
 
     run_hypothesis(ctx, body, strat, examples, shard=shard)
@@ -254,7 +254,7 @@ def pn_random(ctx, examples, shard):
         ctx.case((bits, expected, t), nontrivial=mode in (1, 2) or expected < win or expected > V - win, classes=["pn:%d" % bits])
         if got != want and not closest_ok(t, bits, expected, got):
             ctx.violation("packet-number-expansion-not-closest", "decode_packet_number(%d, %d, %d) = %d, closest candidate is %d" % (t, bits, expected, got, want), {"kind": "pn", "truncated": t, "bits": bits, "expected": expected})
-        if ctx.evaluations % 3000 == 0:
+        if ctx.want_sample():
             ctx.sample({"truncated": t, "bits": bits, "expected": expected, "decoded": got})
 
     run_hypothesis(ctx, body, strat, examples, shard=shard)
